@@ -184,16 +184,16 @@ def decAll (db : CodecDB) (enc : Bytes) : List Bytes → Except Err (List Text)
       | .error e => .error e
       | .ok ts => .ok (t :: ts)
 
-/-- lines 155–170.  NB `msgid, *msgctxt = msgid.split(b'\x04', 1)`: the part BEFORE the first EOT is
-    bound to `msgid`, the part after it to `msgctxt`. -/
+/-- lines 155–170.  `*msgctxt, msgid = msgid.split(b'\x04', 1)`: the part AFTER the first EOT (the whole key
+    when there is none) is bound to `msgid`, the part before it to `msgctxt`; `msgid` is decoded first. -/
 def buildEntry (db : CodecDB) (enc : Bytes) (msgids : List Bytes) (msgstr : Bytes) (msgstrs : List Bytes) :
     Except Err Entry :=
   let parts := split 4 1 (msgids.headD [])
-  match dec db enc (parts.headD []) with
+  match dec db enc (parts.getLastD []) with
   | .error e => .error e
   | .ok msgid =>
     let ctxt : Except Err (Option Text) :=
-      match parts.tail with
+      match parts.dropLast with
       | [] => .ok none
       | [c] =>
         match dec db enc c with
